@@ -37,7 +37,7 @@ fn open_observe<K: HKey>(dir: &Path, cfg: &Cfg) -> Value {
     let disk = alpha::alpha(dir, &names, NK);
     let mut st = Store::<K>::new(dir, cfg);
     let res = st.open();
-    let obs = st.observe();
+    let obs = st.observe_opt(true);
     st.close();
     json!({"disk": disk, "res": res, "obs": obs})
 }
